@@ -286,7 +286,7 @@ func (rule *RuleExpression) VisitStep(n *Step) error {
 	case *ExecAction:
 		rule.checkString(e.Uses, "")
 		for n, i := range e.Inputs {
-			if e.Uses != nil && strings.HasPrefix(e.Uses.Value, "actions/github-script@") && n == "script" {
+			if e.Uses != nil && strings.HasPrefix(strings.ToLower(e.Uses.Value), "actions/github-script@") && n == "script" {
 				rule.checkScriptString(i.Value, "jobs.<job_id>.steps.with")
 			} else {
 				rule.checkString(i.Value, "jobs.<job_id>.steps.with")
